@@ -449,14 +449,25 @@ Definition canon_view (l : list ent) (ev : ent * view) : cview :=
   (option_map (canon_dict l (wsp e)) (v_live v), option_map (canon_dict l (wsp e)) (v_stored v),
    match v_partner v with Some u => pos_of (wsp e) u l 0 | None => None end, v_loc v).
 
-(* run a history, observing every entity after every operation (the getters of the observation act on the state too) *)
-Fixpoint run_obs (s : st) (l : list op) : list (option (list cview)) :=
+(* what a quiet observation reads: the stored metadata only (no getter runs, the state is untouched) *)
+Definition stored_view (s : st) (e : ent) : option cdict :=
+  option_map (canon_dict (ents s) (wsp e)) (fget (wsp e) (uid e) (file s)).
+
+Inductive mview := MFull (l : list cview) | MQuiet (l : list (option cdict)) | MErr.
+
+(* run a history; after every operation either a full observation of every entity (partner getter, metadata getter: they act
+   on the state too) or a quiet one (stored metadata only), as the flag says *)
+Fixpoint run_obs (s : st) (l : list (op * bool)) : list mview :=
   match l with
   | [] => []
-  | o :: r => match step s o with
-              | Err _ => [None]
-              | Ok s1 => let '(vs, s2) := observe_all s1 (ents s1) in Some (map (canon_view (ents s2)) vs) :: run_obs s2 r
-              end
+  | (o, full) :: r =>
+      match step s o with
+      | Err _ => [MErr]
+      | Ok s1 =>
+          if full
+          then let '(vs, s2) := observe_all s1 (ents s1) in MFull (map (canon_view (ents s2)) vs) :: run_obs s2 r
+          else MQuiet (map (stored_view s1) (ents s1)) :: run_obs s1 r
+      end
   end.
 
 (* ------------------------------------------------------------------ comparison with the driver's observation *)
@@ -495,12 +506,15 @@ Definition same_partition (vs : list cview) (os : list oview) : bool :=
 Fixpoint all2 {A B} (f : A -> B -> bool) (l : list A) (m : list B) : bool :=
   match l, m with [], [] => true | a :: l', b :: m' => f a b && all2 f l' m' | _, _ => false end.
 
-Definition step_eqb (m : option (list cview)) (o : option (list oview)) : bool :=
+Inductive oobs := OFull (l : list oview) | OQuiet (l : list (option cdict)) | OErr.
+
+Definition step_eqb (m : mview) (o : oobs) : bool :=
   match m, o with
-  | None, None => true
-  | Some vs, Some os => all2 view_eqb vs os && same_partition vs os
+  | MErr, OErr => true
+  | MFull vs, OFull os => all2 view_eqb vs os && same_partition vs os
+  | MQuiet vs, OQuiet os => all2 (option_eqb cdict_eqb) vs os
   | _, _ => false
   end.
 
-Definition check_history (l : list op) (obs : list (option (list oview))) : bool :=
+Definition check_history (l : list (op * bool)) (obs : list oobs) : bool :=
   all2 step_eqb (run_obs s0 l) obs.
